@@ -28,17 +28,20 @@ deriving Repr, Inhabited
 
 /-- `symbols.NewSymbols(g)`; the panic for a string literal that is also an (already seen)
     production name is `Except.error`. -/
-def newSymbols (prods : List SProd) : Except String PSymbols := do
-  let mut s : PSymbols := { typeMap := ["INVALID", "␚"] }
-  for p in prods do
-    s := { s with ntList := addNoDup s.ntList p.head, typeMap := addNoDup s.typeMap p.head }
-    for sym in p.body do
-      s := { s with typeMap := addNoDup s.typeMap sym.name }
-      if sym.kind == .strLit then
-        if s.ntList.contains sym.name then
-          throw s!"string_lit conflicts with production name {sym.name}"
-        s := { s with strLits := addNoDup s.strLits sym.name }
-  return s
+def symAddSym (s : PSymbols) (sym : SSym) : Except String PSymbols :=
+  let s := { s with typeMap := addNoDup s.typeMap sym.name }
+  if sym.kind == .strLit then
+    if s.ntList.contains sym.name then
+      .error s!"string_lit conflicts with production name {sym.name}"
+    else .ok { s with strLits := addNoDup s.strLits sym.name }
+  else .ok s
+
+def symAddProd (s : PSymbols) (p : SProd) : Except String PSymbols :=
+  p.body.foldlM symAddSym
+    { s with ntList := addNoDup s.ntList p.head, typeMap := addNoDup s.typeMap p.head }
+
+def newSymbols (prods : List SProd) : Except String PSymbols :=
+  prods.foldlM symAddProd { typeMap := ["INVALID", "␚"] }
 
 def PSymbols.isTerminal (s : PSymbols) (x : String) : Bool := !s.ntList.contains x
 
